@@ -27,6 +27,23 @@ CLAIMS = {
          "the bounded stand-in (every prefix of enumerated encodings)."),
    note="Trusted: as C01; paper lemma L-prefix (DESIGN 7/C03) is an unchecked assumption; short-read behaviours proved for BinaryDecoder methods only.",
    technique="contract-based deductive verification over encoding derivations (ghost witnesses, loop ghosts); bounded prefix/partition enumeration"),
+ "C17": dict(cat="other", design="7/C17",
+   text=("Frame obligations decided by the provenance pass for EVERY store site of every function of the pure-Python "
+         "package (268 sites in 288 functions): no call writes module-level objects, mutable default arguments, class "
+         "attributes, undeclared parameters or objects of unknown origin; schema and datum parameters are never declared "
+         "modifiable. The step from per-call frames to 'any history' is the paper lemma L-frame (unchecked); the bounded "
+         "stand-in replays sampled call histories against fresh-interpreter results and checks inputs intact."),
+   note=("Trusted: the provenance rules (flow-insensitive, intraprocedural; field-sensitive only for attributes of self), the "
+         "declarations in contracts/_frames.py (listed in evidence), L-frame; C extensions / Cython mirrors not analysed."),
+   technique="frame conditions checked by a provenance analysis over the real AST; bounded differential history replay"),
+ "C18": dict(cat="other", design="7/C18",
+   text=("Interleavings are outside what contracts can quantify over. What is machine-checked is the sufficient condition: "
+         "the same frame obligations as C17 (nothing shared is written; per-operation state is per-instance). "
+         "The non-interference step is a paper lemma (unchecked). The schedule quantifier is NOT explored; a bounded "
+         "stand-in runs thread stress with a tiny switch interval and, for any failing store site, deterministic "
+         "pause-after-store schedules."),
+   note="Trusted: as C17 plus CPython GIL atomicity of bytecodes and thread-safety of the C externals; schedules sampled only.",
+   technique="frame / non-interference obligations by provenance analysis; deterministic schedule replay as bounded stand-in"),
 }
 
 PENDING = ["C04", "C05", "C06", "C07", "C08", "C09", "C10", "C11", "C12", "C13", "C14", "C15", "C16", "C17", "C18", "C19", "C20"]
